@@ -200,7 +200,7 @@ def _scn(rng):
     mname = str(rng.choice(MODELS))
     bc = str(rng.choice(["per", "per", "sym", "open"]))
     s = gen.scenario1d(rng, mname=mname, bc=bc, nmin=3, nmax=12, fluxes=gen.UPWIND_FLUXES, mach_max=1.2, ratio=4.0,
-                       recons=["extrapol1", "extrapol2", "extrapol3", "muscl_minmod", "muscl_vanleer", "muscl_superbee", "extrapolk"])
+                       recons=["extrapol1", "extrapol2", "extrapol3", "muscl_minmod", "muscl_vanleer", "muscl_superbee", "extrapolk"], anysection=0.5)
     return s
 
 
@@ -260,7 +260,9 @@ def solve_hist(ctx, rng, idx):
     dtlocal = bool(rng.random() < 0.15)
     t0 = float(rng.choice([0.0, 0.0, np.round(rng.uniform(-1, 3), 3), np.round(rng.uniform(-1, 3), 3), float(rng.choice([-1.0, 1.0])) * 10 ** float(rng.integers(2, 7))]))
     restart = bool(rng.random() < 0.25)
-    f = ffield.fdata(s.model, s.mesh, s.field.data, t=t0, it=int(rng.integers(0, 50)) if restart else -1)
+    # restart() goes on counting from the stamp of the field it is given; solve() counts ITS OWN steps from 0 whatever that stamp is
+    # (a snapshot of an earlier run, or a field built with it=k, handed to solve() -- 40 % of the solve calls)
+    f = ffield.fdata(s.model, s.mesh, s.field.data, t=t0, it=int(rng.integers(0, 50)) if (restart or rng.random() < 0.4) else -1)
     directives = {"dtlocal": True} if dtlocal else {}
     make = lambda: gen.integ(iname)(s.mesh, s.disc)
     # dry run (not observed) to learn where the trajectory times are
